@@ -262,7 +262,11 @@ class AsyncFIXConnection:
                     " be sent."
                 )
 
-        if msg.msg_type == FMsg.TESTREQUEST and self._test_req_id is None:
+        if msg.msg_type == FMsg.TESTREQUEST and (
+            self._test_req_id is None
+            # only the probe send_test_req() has just registered may go out
+            or msg.get(FTag.TestReqID, None) != str(self._test_req_id)
+        ):
             raise FIXConnectionError(
                 "You must rend TestRequest() message via self.send_test_req() method in"
                 " order to get valid response handling"
